@@ -369,9 +369,12 @@ func runC10(c *core.Ctx) {
 			}
 		}
 		got := map[string]bool{}
-		for _, sw := range valueSwitches(nx) {
-			for _, cs := range sw.cases {
-				got[cs] = true
+		// the dispatch may sit in Next itself or in an unexported helper it calls
+		for _, g := range withLocalHelpers(c.P, nx) {
+			for _, sw := range valueSwitches(g) {
+				for _, cs := range sw.cases {
+					got[cs] = true
+				}
 			}
 		}
 		for k := range consts {
